@@ -25,6 +25,8 @@ pub fn run(id: &str) -> Result<String, String> {
         "F37" => f37(),
         "F38" => f38(),
         "F39" => f39(),
+        "F46" => f46_text_lazy_readers(),
+        "F51" => f51(),
         _ => Err(format!("unknown witness {id}")),
     }
 }
@@ -703,4 +705,63 @@ fn f39() -> Result<String, String> {
     }
     if !bad.is_empty() { return Err(format!("BCF write+read of genotypes of different ploidy: {}", bad.join("; "))); }
     Ok(format!("\"cases\":{n}"))
+}
+
+/// F46 / F53 / F54a / F54b / F55: the lazy text record readers (BED, FASTQ, SAM, VCF).
+/// (a) an empty last column after a column ending in CR must not make an accessor of the returned record panic;
+/// (b) the record must not depend on the capacity of the BufReader the text comes through (CR and LF, or the two bytes of a
+///     multibyte character, arriving in different windows).
+fn f46_text_lazy_readers() -> Result<String, String> {
+    use std::io::BufReader;
+    let mut bad = Vec::new();
+    let mut n = 0u64;
+    let mut case = |name: &str, f: &mut dyn FnMut() -> Result<(), String>| { n += 1; match std::panic::catch_unwind(std::panic::AssertUnwindSafe(|| f())) { Err(_) => bad.push(format!("{name}: PANICS")), Ok(Err(e)) => bad.push(format!("{name}: {e}")), Ok(Ok(())) => {} } };
+    // (a) BED3..6
+    case("BED3 'sq0\\t0\\t1\\r\\t\\n' (F46)", &mut || { let mut rd = noodles_bed::io::Reader::<3, _>::new(&b"sq0\t0\t1\r\t\n"[..]); let mut rec = noodles_bed::Record::<3>::default(); rd.read_record(&mut rec).map_err(|e| e.to_string())?; let _ = rec.reference_sequence_name(); let _ = rec.feature_start(); let _ = rec.feature_end(); let _ = rec.other_fields().iter().count(); Ok(()) });
+    case("BED6 'sq0\\t0\\t1\\tn\\t0\\t+\\r\\t\\n' (F46)", &mut || { let mut rd = noodles_bed::io::Reader::<6, _>::new(&b"sq0\t0\t1\tn\t0\t+\r\t\n"[..]); let mut rec = noodles_bed::Record::<6>::default(); rd.read_record(&mut rec).map_err(|e| e.to_string())?; let _ = rec.name(); let _ = rec.score(); let _ = rec.strand(); let _ = rec.other_fields().iter().count(); Ok(()) });
+    // (a) SAM
+    for (i, line) in [&b"r\t4\t*\t0\t0\t*\t*\t0\t0\tAC\r\t\n"[..], &b"r\t4\t*\t0\t0\t*\t*\t0\t0\tAC\tII\r\t\n"[..]].iter().enumerate() {
+        case(&format!("SAM lazy record, CR before an empty last column, case {i} (F54a)"), &mut || { let mut rd = noodles_sam::io::Reader::new(*line); let mut rec = noodles_sam::Record::default(); rd.read_record(&mut rec).map_err(|e| e.to_string())?; let _ = rec.name(); let _ = rec.flags(); let _ = rec.cigar().as_ref().len(); let _ = rec.sequence().as_ref().len(); let _ = rec.quality_scores().as_ref().len(); let _ = rec.data().iter().count(); Ok(()) });
+    }
+    // (a) VCF
+    for (i, line) in [&b"sq0\t1\t.\tA\t.\t.\tPASS\r\t\n"[..], &b"sq0\t1\t.\tA\t.\t.\tPASS\t.\r\t\n"[..]].iter().enumerate() {
+        case(&format!("VCF lazy record, CR before an empty last column, case {i} (F54b)"), &mut || { let mut rd = noodles_vcf::io::Reader::new(*line); let mut rec = noodles_vcf::Record::default(); rd.read_record(&mut rec).map_err(|e| e.to_string())?; let _ = rec.reference_sequence_name(); let _ = rec.filters().as_ref().len(); let _ = rec.info().as_ref().len(); let _ = rec.samples().as_ref().len(); Ok(()) });
+    }
+    // (b) every BufReader capacity 1..=40 must give the same record as the whole text in one window
+    case("FASTQ CRLF record through BufReader capacities 1..=40 (F53)", &mut || {
+        let src = b"@r1\r\nACGT\r\n+\r\nIIII\r\n@r2 d e\r\nAC\r\n+x\r\nII\r\n";
+        let read = |cap: usize| -> Result<Vec<(Vec<u8>, Vec<u8>, Vec<u8>, Vec<u8>)>, String> { let mut rd = noodles_fastq::io::Reader::new(BufReader::with_capacity(cap, &src[..])); let mut rec = noodles_fastq::Record::default(); let mut v = Vec::new(); while rd.read_record(&mut rec).map_err(|e| e.to_string())? != 0 { v.push((rec.name().to_vec(), rec.description().to_vec(), rec.sequence().to_vec(), rec.quality_scores().to_vec())); } Ok(v) };
+        let want = read(4096)?;
+        if want.len() != 2 || want[0].0 != b"r1" || want[1].1 != b"d e" { return Err(format!("the whole-window read gives {want:?}")); }
+        for cap in 1..=40 { let got = read(cap).map_err(|e| format!("capacity {cap}: {e}"))?; if got != want { return Err(format!("capacity {cap}: record names {:?} instead of {:?}", got.iter().map(|r| String::from_utf8_lossy(&r.0).into_owned()).collect::<Vec<_>>(), want.iter().map(|r| String::from_utf8_lossy(&r.0).into_owned()).collect::<Vec<_>>())); } }
+        Ok(()) });
+    case("VCF lazy record with multibyte characters through BufReader capacities 1..=40 (F55)", &mut || {
+        let src = "sq0\t1\t.\tA\t.\t.\tPASS\tXS=\u{e9}t\u{e9};XT=\u{65e5}\u{672c}\tGT\t0/1\r\nsq0\t2\t\u{e9}\tA\t.\t.\tPASS\t.\n".as_bytes();
+        let read = |cap: usize| -> Result<Vec<(String, String, String)>, String> { let mut rd = noodles_vcf::io::Reader::new(BufReader::with_capacity(cap, src)); let mut rec = noodles_vcf::Record::default(); let mut v = Vec::new(); while rd.read_record(&mut rec).map_err(|e| e.to_string())? != 0 { v.push((rec.ids().as_ref().to_string(), rec.info().as_ref().to_string(), rec.samples().as_ref().to_string())); } Ok(v) };
+        let want = read(4096)?;
+        if want.len() != 2 { return Err(format!("the whole-window read gives {want:?}")); }
+        for cap in 1..=40 { let got = read(cap).map_err(|e| format!("capacity {cap}: read_record fails ({e}) although the whole-window read succeeds"))?; if got != want { return Err(format!("capacity {cap}: {got:?} instead of {want:?}")); } }
+        Ok(()) });
+    case("SAM lazy record through BufReader capacities 1..=40", &mut || {
+        let src = b"r1\t4\t*\t0\t0\t*\t*\t0\t0\tACGT\tIIII\tXA:Z:x y\r\nr2\t4\t*\t0\t0\t*\t*\t0\t0\tAC\tII\r\n";
+        let read = |cap: usize| -> Result<Vec<(Vec<u8>, Vec<u8>, Vec<u8>)>, String> { let mut rd = noodles_sam::io::Reader::new(BufReader::with_capacity(cap, &src[..])); let mut rec = noodles_sam::Record::default(); let mut v = Vec::new(); while rd.read_record(&mut rec).map_err(|e| e.to_string())? != 0 { v.push((rec.sequence().as_ref().to_vec(), rec.quality_scores().as_ref().to_vec(), rec.data().as_ref().to_vec())); } Ok(v) };
+        let want = read(4096)?;
+        if want.len() != 2 || want[1].1 != b"II" { return Err(format!("the whole-window read gives {want:?}")); }
+        for cap in 1..=40 { let got = read(cap).map_err(|e| format!("capacity {cap}: {e}"))?; if got != want { return Err(format!("capacity {cap}: {got:?} instead of {want:?}")); } }
+        Ok(()) });
+    case("BED3 through BufReader capacities 1..=40", &mut || {
+        let src = b"# c\r\nsq0\t0\t1\tx\t\r\nsq1\t5\t9\r\n";
+        let read = |cap: usize| -> Result<Vec<(Vec<u8>, usize)>, String> { let mut rd = noodles_bed::io::Reader::<3, _>::new(BufReader::with_capacity(cap, &src[..])); let mut rec = noodles_bed::Record::<3>::default(); let mut v = Vec::new(); while rd.read_record(&mut rec).map_err(|e| e.to_string())? != 0 { v.push((rec.reference_sequence_name().to_vec(), rec.other_fields().iter().count())); } Ok(v) };
+        let want = read(4096)?;
+        if want != vec![(b"sq0".to_vec(), 2), (b"sq1".to_vec(), 0)] { return Err(format!("the whole-window read gives {want:?}")); }
+        for cap in 1..=40 { let got = read(cap).map_err(|e| format!("capacity {cap}: {e}"))?; if got != want { return Err(format!("capacity {cap}: {got:?} instead of {want:?}")); } }
+        Ok(()) });
+    if bad.is_empty() { Ok(format!("\"cases\":{n}")) } else { Err(bad.join("; ")) }
+}
+
+/// F51: a GTF record line whose attributes do not parse must be reported as an error by record_bufs() / line_bufs(), not a panic.
+fn f51() -> Result<String, String> {
+    let src = b"chr1\tsrc\tgene\t10\t20\t.\t+\t.\tID \"\\\"; z \"after\";\n";
+    let r = std::panic::catch_unwind(|| { let mut rd = noodles_gtf::io::Reader::new(&src[..]); let a: Vec<bool> = rd.record_bufs().map(|r| r.is_ok()).collect(); let mut rd = noodles_gtf::io::Reader::new(&src[..]); let b: Vec<bool> = rd.line_bufs().map(|r| r.is_ok()).collect(); (a, b) });
+    match r { Err(_) => Err("gtf record_bufs() / line_bufs() PANIC on a record line whose attributes do not parse".into()), Ok(_) => Ok("\"cases\":2".into()) }
 }
